@@ -373,6 +373,11 @@ def run(p, report, tier):
 
     # ---- R1.8 ------------------------------------------------------------
     check_choice_replace(p, report, funcs, facts)
+    report.rule("R1.9", "no utility row can become all-NaN through a 0/0 normalisation (rand_argmax then returns position 0 "
+                "in every remaining step: duplicates): min-max denominators carry a positive constant (shared with C02 R2.7)",
+                floor=2)
+    from . import c02 as _c02
+    _c02.check_minmax_offsets(p, report, funcs, "R1.9")
     report.assumptions += [
         "dependence is flow-insensitive inside a loop body (over-approximates real dependence: R1.4 is a necessary condition)",
         "custom loops filling all batch_size slots, termination of numerical subroutines and dtype of the result are not decided",
